@@ -15,7 +15,9 @@
    becomes a source file; every Include scenario becomes a real directory tree + command
    line; `chibicc -E` of the tree under test must print Level A's token sequence.
    #if arithmetic: tla/pp/IfExpr.tla enumerates a typed expression family (intmax_t /
-   uintmax_t), a hand-checked table covers the 64-bit boundaries.
+   uintmax_t), a hand-checked table covers the 64-bit boundaries, and the family of
+   identifiers SPELLED LIKE KEYWORDS (6.10.1p4: they are 0 like any other identifier, macros
+   if defined, and there are no casts) puts every keyword spelling in every operand position.
 3. Trace validation (when the tree has hook H2): directive events of real runs are checked
    against tla/pp/CondTrace.tla.
 """
@@ -544,17 +546,25 @@ BOUNDARY = [
 ]
 
 
-def ifexpr_case_text(k, e, v, u):
+def ifexpr_case_text(k, e, v, u, meta=None):
     val = "(%d)" % v if v < 2**63 else "%du" % v
-    return ["#if (%s) == %s" % (e, val), "E%d v" % k, "#else", "E%d x" % k, "#endif",
-            "#if ((%s) - (%s) - 1) < 0" % (e, e), "E%d s" % k, "#else", "E%d u" % k, "#endif",
-            # the expression itself selects the group: taken iff its value compares unequal to 0 (6.10.1p4)
-            "#if %s" % e, "E%d t" % k, "#else", "E%d f" % k, "#endif",
-            "#if 0", "E%d z" % k, "#elif %s" % e, "E%d t" % k, "#else", "E%d f" % k, "#endif"]
+    defs = (meta or {}).get("defs", [])
+    return (["#define %s %s" % (n, b) for n, b in defs] +
+            ["#if (%s) == %s" % (e, val), "E%d v" % k, "#else", "E%d x" % k, "#endif",
+             "#if ((%s) - (%s) - 1) < 0" % (e, e), "E%d s" % k, "#else", "E%d u" % k, "#endif",
+             # the expression itself selects the group: taken iff its value compares unequal to 0 (6.10.1p4)
+             "#if %s" % e, "E%d t" % k, "#else", "E%d f" % k, "#endif",
+             "#if 0", "E%d z" % k, "#elif %s" % e, "E%d t" % k, "#else", "E%d f" % k, "#endif",
+             # where the expression is not evaluated it selects nothing: an #elif after the group that was
+             # taken, and an #if inside a group that is being skipped
+             "#if 1", "E%d a" % k, "#elif %s" % e, "E%d b" % k, "#endif",
+             "#if 0", "#if %s" % e, "E%d c" % k, "#else", "E%d d" % k, "#endif", "#endif"] +
+            ["#undef %s" % n for n, b in defs])
 
 
 def replay_ifexpr(ctx, tree, exprs, tag, batch=100):
-    """exprs: list of (text, value, unsigned)"""
+    """exprs: list of (text, value, unsigned[, meta]); meta = dict(defs=[(name, body)] wrapped around the case,
+    shape=classification used in the signature)"""
     d = ctx.tmp("ifexpr-" + tag)
     cc = tree + "/chibicc"
     pre = ["#define X 3", "#define Y (-2)"]
@@ -589,9 +599,10 @@ def replay_ifexpr(ctx, tree, exprs, tag, batch=100):
     chunks = [list(range(j, min(j + batch, len(exprs)))) for j in range(0, len(exprs), batch)]
     for res in vt.pmap(run_batch, chunks):
         for k, rc, got, err in res:
-            e, v, u = exprs[k]
+            e, v, u = exprs[k][:3]
+            meta = exprs[k][3] if len(exprs[k]) > 3 else None
             sel = "t" if v != 0 else "f"
-            exp = ["v", "u" if u else "s", sel, sel]
+            exp = ["v", "u" if u else "s", sel, sel, "a"]
             ctx.note_case("ifexpr:" + e, nontrivial=True)
             if rc == 0 and got == exp:
                 continue
@@ -601,13 +612,17 @@ def replay_ifexpr(ctx, tree, exprs, tag, batch=100):
                 cls = "value"
             elif got[1:2] != exp[1:2]:
                 cls = "signedness"
-            else:
+            elif got[2:4] != exp[2:4]:
                 cls = "group-selection"
+            else:
+                cls = "not-evaluated"
             neg = "neg" if (v < 0 or "-" in e or "~" in e) else "nonneg"
             sig = "ifexpr:%s:%s:%s:%s" % (tag, cls, "unsigned" if u else "signed", neg)
+            if meta and meta.get("shape"):
+                sig = "ifexpr:%s:%s:%s:%s" % (tag, cls, meta["shape"], "macro" if meta.get("defs") else "not-a-macro")
             if not settled(sig):
                 f = "%s/g%d.c" % (d, k)
-                open(f, "w").write("\n".join(pre + ifexpr_case_text(k, e, v, u)) + "\n")
+                open(f, "w").write("\n".join(pre + ifexpr_case_text(k, e, v, u, meta)) + "\n")
                 grc, gg = gcc_E([f], d)
                 os.unlink(f)
                 if grc != 0 or gg != [x for y in exp for x in ("E%d" % k, y)]:
@@ -616,13 +631,17 @@ def replay_ifexpr(ctx, tree, exprs, tag, batch=100):
                 CONFIRMED[sig] = CONFIRMED.get(sig, 0) + 1
             ctx.report(sig,
                        "#if %s: expected value %d (%s), chibicc says %s %s" % (e, v, "uintmax_t" if u else "intmax_t", got, err),
-                       case=dict(kind="ifexpr", tag=tag, expr=[e, v, u]))
+                       case=dict(kind="ifexpr", tag=tag, expr=[e, v, u] + ([meta] if meta else [])))
     ctx.cov["traces_validated_against_impl"] += len(exprs)
+
+
+KW_STRIDE = 29      # quick: every 29th of the 30,210 keyword-spelled expressions ...
+KW_CAST_STRIDE = 4  # ... but every 4th of the 11,872 `(k) op a` shapes among them
 
 
 def submit_ifexpr(ctx, pool):
     out = os.path.join(ctx.scratch, "ifexpr.ndjson")
-    cfg = ctx.cfg("pp", "IfExpr_gen.cfg", Seed=ctx.seed, Stride=90 if ctx.quick else 2)
+    cfg = ctx.cfg("pp", "IfExpr_gen.cfg", Seed=ctx.seed, Stride=90 if ctx.quick else 2, KwStride=KW_STRIDE if ctx.quick else 1, CastStride=KW_CAST_STRIDE if ctx.quick else 1)
     return dict(out=out, gen=pool.submit(ctx.tlc, "pp", "IfExpr", cfg, env=dict(OUT=out), workers=2 if ctx.quick else 4, timeout=1500))
 
 
@@ -644,16 +663,23 @@ def finish_ifexpr(ctx, tree, job):
                    case=dict(kind="ifexpr", tag="canary", expr=["-1 < 0", 1, False]))
         ctx.assumptions.append("#if expression family NOT judged in this run: the constant folder mis-evaluates negative int constants (D10)")
         return dict(if_expressions=0, if_family_skipped=True)
-    exprs = [(r["e"], r["v"], r["u"]) for r in rows]
+    exprs = [(r["e"], r["v"], r["u"]) for r in rows if "kw" not in r]
+    kws = [(r["e"], r["v"], r["u"], dict(defs=[(r["kw"], "5")] if r["d"] else [], shape=r["shape"], kw=r["kw"])) for r in rows if "kw" in r]
+    if len(kws) < 500:
+        raise Infra("IfExpr generator wrote only %d keyword-spelled expressions" % len(kws))
     ctx.sample(dict(kind="#if expression", expr=exprs[len(exprs) // 2][0], value=exprs[len(exprs) // 2][1], unsigned=exprs[len(exprs) // 2][2]))
     replay_ifexpr(ctx, tree, exprs, "gen")
+    replay_ifexpr(ctx, tree, kws, "kw")
+    ctx.sample(dict(kind="#if expression, identifier spelled like a keyword", expr=kws[len(kws) // 2][0], value=kws[len(kws) // 2][1],
+                    macro=bool(kws[len(kws) // 2][3]["defs"])))
     seen, table = set(), []
     for e, v, u in BOUNDARY:
         if e not in seen:
             seen.add(e)
             table.append((e, v if not u else v % M64, u))
     replay_ifexpr(ctx, tree, table, "boundary")
-    return dict(if_expressions=len(exprs), if_boundary_expressions=len(BOUNDARY))
+    return dict(if_expressions=len(exprs), if_keyword_spelled_expressions=len(kws), if_keyword_spellings=len(set(m["kw"] for _, _, _, m in kws)),
+                if_boundary_expressions=len(BOUNDARY))
 
 
 # -------------------------------------------------------------------- run
